@@ -3,7 +3,7 @@
    stop = "an empty datagram ends the direction" as found in that side's stream_to_udp loop (udp_stop side,
           regenerated).  C15_code_params states what the current sources give: 65535 and false, both sides. *)
 From Coq Require Import List NArith ZArith.
-From AnyTLS Require Import Bytes Reader ReaderProg Generated GeneratedFacts Dest Udp ReaderProofs DestProofs UdpProofs.
+From AnyTLS Require Import Bytes Reader ReaderProg Generated FactsCore FactsParsers Dest Udp ReaderProofs DestProofs UdpProofs.
 Import ListNotations.
 Open Scope N_scope.
 
